@@ -18,22 +18,33 @@ structure World where
   anSpace : Option Bool := none  -- `space.allow_none`
   anModel : Bool := false        -- `model.allow_none`
   st : St := {}
+  /-- the space each cells / reference lives in (default 0) -/
+  cellSpace : List (CellId × Nat) := []
+  refSpace : List (RefId × Nat) := []
   /-- the most recent `eval`: the element and the state it started from (for `obs handled`) -/
   lastEval : Option (Node × St) := none
 
 def World.cell? (w : World) (c : CellId) : Option CellDef :=
   (w.cells.find? (·.1 == c)).map (·.2)
 
+def World.spaceOfCell (w : World) (c : CellId) : Nat :=
+  match w.cellSpace.find? (·.1 == c) with | some e => e.2 | none => 0
+
+def World.spaceOfRef (w : World) (r : RefId) : Nat :=
+  match w.refSpace.find? (·.1 == r) with | some e => e.2 | none => 0
+
 def World.env (w : World) : Env where
   formula := fun n => match w.cell? n.1 with
-    | some d => formulaOf (fun c => (w.cell? c).map (·.nparams)) d.body n.2
+    | some d => formulaOf (fun c => (w.cell? c).map (·.nparams))
+        (scopeExpr (fun r => w.spaceOfRef r == w.spaceOfCell n.1) d.body) n.2
     | none => .raise (.user kName)
   cached := fun c => match w.cell? c with | some d => d.cached | none => true
   allowNone := fun c => match w.cell? c with
     | some d => resolveAllowNone d.allowNone w.anSpace w.anModel
     | none => false
-  refs := fun r => match w.refs.find? (·.1 == r) with | some e => e.2 | none => .none
+  refs := fun r => (w.refs.find? (·.1 == r)).map (·.2)
   maxdepth := w.maxdepth
+  observers := fun r => ((w.cells.map (·.1)).filter (fun c => w.spaceOfCell c == w.spaceOfRef r)).reverse
 
 def showVal : Val → String
   | .int i => toString i
@@ -141,6 +152,44 @@ def step (w : World) (line : String) : World × String :=
     match id.toNat?, parseKey args with
     | some id, some key => ({ w with st := w.st.clearValueAt (id, key) true }, "ok")
     | _, _ => (w, "bad-op")
+  | ["space", "cell", id, k] => match id.toNat?, k.toNat? with
+    | some id, some k => ({ w with cellSpace := (id, k) :: w.cellSpace.filter (·.1 != id) }, "ok")
+    | _, _ => (w, "bad-op")
+  | ["space", "ref", id, k] => match id.toNat?, k.toNat? with
+    | some id, some k => ({ w with refSpace := (id, k) :: w.refSpace.filter (·.1 != id) }, "ok")
+    | _, _ => (w, "bad-op")
+  | ["setref", id, v] =>
+    -- `space.r = v` from outside any formula: the clearing, then the new binding
+    match id.toNat?, parseVal? v with
+    | some id, some v =>
+      ({ w with st := w.st.setRef w.env id, refs := (id, v) :: w.refs.filter (·.1 != id) }, "ok")
+    | _, _ => (w, "bad-op")
+  | ["delref", id] =>
+    match id.toNat? with
+    | some id =>
+      if (w.env.refs id).isNone then (w, "err Key") else
+      ({ w with st := w.st.delRef w.env id, refs := w.refs.filter (·.1 != id) }, "ok")
+    | none => (w, "bad-op")
+  | "setformula" :: id :: body =>
+    match id.toNat?, parseExpr body with
+    | some id, some (e, []) =>
+      match w.cell? id with
+      | none => (w, "err Name")
+      | some d =>
+        ({ w with st := w.st.setFormula id,
+                  cells := w.cells.map (fun x => if x.1 == id then (id, { d with body := e }) else x) }, "ok")
+    | _, _ => (w, "bad-op")
+  | ["setcached", id, b] =>
+    match id.toNat? with
+    | some id =>
+      match w.cell? id with
+      | none => (w, "err Name")
+      | some d =>
+        -- the setter of `Cells.is_cached` returns at once when the flag already has that value
+        if d.cached == (b = "1") then (w, "ok") else
+        ({ w with st := w.st.setFormula id,
+                  cells := w.cells.map (fun x => if x.1 == id then (id, { d with cached := b = "1" }) else x) }, "ok")
+    | none => (w, "bad-op")
   | ["clear", id] => match id.toNat? with
     | some id => ({ w with st := w.st.clearAllValues id false }, "ok")
     | none => (w, "bad-op")
